@@ -71,7 +71,7 @@ func gen(s pbt.Src, thorough bool) Case {
 	}
 	if s.Intn(12) == 0 {
 		// a large cache: capacities around powers of two and a few hundred to a few thousand operations, so that it fills up and evicts
-		c.Cap = []int{31, 32, 33, 63, 64, 65, 100, 255, 256, 257, 1000}[s.Intn(11)]
+		c.Cap = []int{31, 32, 33, 63, 64, 65, 100, 255, 256, 257, 1000, 1024, 4096, 4097, 5000}[s.Intn(15)]
 		nkeys = c.Cap + 1 + s.Intn(c.Cap/2+2)
 		max = c.Cap
 	}
@@ -310,7 +310,7 @@ func TestProp(t *testing.T) {
 		&pbt.Check[Case]{
 			Name: "lru",
 			Rule: "operation sequences (Add/Get/Remove x key, GetOldest, GetYoungest, RemoveOldest, RemoveYoungest, Flush) against a recency-list model; " +
-				"enumerated: every sequence up to length 4 (thorough 5) over keys 0..3 (0..4) for every capacity 1..4; random: capacity 1..16, up to 120 (300) operations; one case in twelve: capacity 31..1000 (around powers of two), filled first, then up to capacity further operations. " +
+				"enumerated: every sequence up to length 4 (thorough 5) over keys 0..3 (0..4) for every capacity 1..4; random: capacity 1..16, up to 120 (300) operations; one case in twelve: capacity 31..5000 (around powers of two), filled first, then up to capacity further operations. " +
 				"Non-trivial = an eviction happened, or a GetOldest/RemoveYoungest was followed by a later Add/Get. Distinct = enumerated cases (injective encoding) + hash-distinct random cases outside the enumerated scope.",
 			Enum: enum, Gen: gen, Prop: prop, OutOfEnum: outOfEnum,
 			RapidQuick: 1500, RapidThorough: 20000,
